@@ -13,8 +13,8 @@ import (
 	channeltypes "github.com/cosmos/ibc-go/v8/modules/core/04-channel/types"
 
 	adapterctrl "github.com/noble-assets/orbiter/v2/controller/adapter"
-	adaptertypes "github.com/noble-assets/orbiter/v2/types/component/adapter"
 	orbitertypes "github.com/noble-assets/orbiter/v2/types"
+	adaptertypes "github.com/noble-assets/orbiter/v2/types/component/adapter"
 	actiontypes "github.com/noble-assets/orbiter/v2/types/controller/action"
 	forwardingtypes "github.com/noble-assets/orbiter/v2/types/controller/forwarding"
 	"github.com/noble-assets/orbiter/v2/types/core"
